@@ -40,7 +40,7 @@ var verifDir = func() string {
 var goEnv = []string{"GOFLAGS=-mod=mod", "GOPROXY=off", "GOSUMDB=off", "GOTOOLCHAIN=local", "CGO_ENABLED=0"}
 
 // which properties need the instrumented build
-var instrProps = map[string]bool{"C06": true, "C07": true, "C08": true, "C09": true, "C11": true, "C12": true, "C13": true, "C20": true, "C02": true, "C17": true, "C18": true, "C19": true}
+var instrProps = map[string]bool{"C05": true, "C06": true, "C07": true, "C08": true, "C09": true, "C11": true, "C12": true, "C13": true, "C20": true, "C02": true, "C17": true, "C18": true, "C19": true}
 
 func main() {
 	if len(os.Args) < 2 {
